@@ -120,6 +120,11 @@ func quoteInputs(tier string) []string {
 		add(h.s)
 	}
 	// already-quoted looking inputs
+	// defaults that arrive quoted with the double quote (legacy SQLite schemas, SQL schema files)
+	for _, s := range []string{`"it's; a note -- really"`, `"a'b"`, `"a''b"`, `"'"`, `"a\"b"`, `"a\nb"`, "\"a\nb\"", `"a\tb"`, `"a\qb"`, `"a\\"`, `"/* x */ # y"`,
+		`"a;b"`, `"é✓"`, `"a\x41"`, `"a\u00e9'"`, `""`, `"a" "b"`, `"ab'`, `'ab"`} {
+		add(s)
+	}
 	for _, s := range []string{"'a'", "'a''", "'a\\'", "'a''b'", "'a'b'", `"a"`, `"a""`, `"a\"`, `"a"b"`, "''", `""`, "'", `"`, "'\\''", "'a\\\\'", "'''", "''''", `'\`} {
 		add(s)
 	}
@@ -179,14 +184,29 @@ func runQuote(w *out.W, tier string) {
 	for i, s := range quoteInputs(tier) {
 		pre1 := verifx.IsQuoted(s, '\'')
 		pre2 := verifx.IsQuoted(s, '"', '\'')
-		// sqlx.SingleQuote (used by the SQLite planner): generic/sqlite scanners
-		if !verifx.IsQuoted(s, '"') || pre1 {
-			if q, err := verifx.SingleQuote(s); err == nil {
-				class := "quote-not-closed"
-				if pre1 {
-					class = "quote-passthrough-prequoted"
+		// sqlx.SingleQuote (used by the SQLite planner): generic/sqlite scanners.  An input quoted with
+		// the double quote (a default inspected from a legacy SQLite schema) goes through strconv.Unquote:
+		// its real result is handed to the model ("!" = error)
+		{
+			var extra []string
+			if verifx.IsQuoted(s, '"') && !pre1 {
+				if u, uerr := strconv.Unquote(s); uerr != nil {
+					extra = []string{"!"}
+				} else {
+					extra = []string{hx(u)}
 				}
-				emit(fmt.Sprintf("q%d-sq", i), "single_quote", generic, []string{s}, nil, q, class, fmt.Sprintf("sqlx.SingleQuote(%q)", s), true)
+				w.Count("single_quote:double-quoted-input")
+			}
+			q, err := verifx.SingleQuote(s)
+			class := "quote-not-closed"
+			if pre1 {
+				class = "quote-passthrough-prequoted"
+			}
+			if err != nil {
+				w.Count("single_quote:unquote-error")
+				emit(fmt.Sprintf("q%d-sq", i), "single_quote", generic, []string{s}, extra, "<err>", class, fmt.Sprintf("sqlx.SingleQuote(%q)", s), false)
+			} else {
+				emit(fmt.Sprintf("q%d-sq", i), "single_quote", generic, []string{s}, extra, q, class, fmt.Sprintf("sqlx.SingleQuote(%q)", s), true)
 			}
 		}
 		if q, ok := pgQuote(s); ok {
@@ -240,9 +260,6 @@ func runQuote(w *out.W, tier string) {
 				w.Count(fmt.Sprintf("ident:closed=%v", closed))
 				if !closed {
 					class := "quote-not-closed"
-					if strings.IndexByte(s, qc) >= 0 {
-						class = "ident-closing-quote"
-					}
 					w.Violation(fmt.Sprintf("q%d-id%c", i, map[byte]byte{'`': 'b', '"': 'd'}[qc]), class, fmt.Sprintf("Builder.Ident(%q) with quote %c = %q", s, qc, trunc(q, 80)))
 				}
 			}
